@@ -21,6 +21,7 @@ func doSelftest(args []string) int {
 	if pi == nil {
 		harnessFail("unknown property")
 	}
+	instrBin = pi.Instr
 	runs := 40
 	if len(args) > 1 {
 		fmt.Sscan(args[1], &runs)
